@@ -22,11 +22,12 @@
 // attributable leak accounting for everything libjwt and jansson allocate).
 extern "C" __attribute__((used, visibility("default"))) const char *__asan_default_options()
 {
-	// fast_unwind_on_malloc=0: allocation stacks are unwound through the uninstrumented crypto
-	// libraries too, so that a LeakSanitizer report names the libjwt call site (measured: no
-	// noticeable cost for these workloads).
+	// (fast_unwind_on_malloc=0 would let LeakSanitizer name the libjwt call site behind an allocation made
+	// inside the uninstrumented crypto libraries, but it makes every allocation ten times slower; the
+	// master instead re-executes a leaking plan once with ASAN_OPTIONS=fast_unwind_on_malloc=0 to put the
+	// full stack into the replay file's detail.)
 	return "exitcode=77:detect_leaks=1:leak_check_at_exit=0:abort_on_error=0:allocator_may_return_null=1:"
-	       "detect_stack_use_after_return=0:handle_abort=1:fast_unwind_on_malloc=0";
+	       "detect_stack_use_after_return=0:handle_abort=1";
 }
 extern "C" __attribute__((used, visibility("default"))) const char *__ubsan_default_options()
 {
@@ -188,8 +189,11 @@ static void lsan_monitor(const Plan &plan, Ctx &ctx)
 	std::string rep = lsan_check();
 	if (rep.empty())
 		return;
-	ctx.violation(plan.property, "leak-lsan", leak_site(rep),
-		      "LeakSanitizer: memory obtained through libjwt was not released after every object of the run was freed\n" + rep.substr(0, 1200));
+	// the cause key is constant: whether the unwinder gets through the crypto library to the libjwt
+	// frame depends on the unwinder mode, and the key has to be the same in workers, children and replays
+	ctx.violation(plan.property, "leak-lsan", "memory-obtained-from-crypto-library",
+		      "LeakSanitizer: memory obtained through libjwt was not released after every object of the run was freed (first libjwt frame: " + leak_site(rep) + ")\n" +
+			      rep.substr(0, 1200));
 }
 
 // ---------------------------------------------------------------- known findings
@@ -1063,6 +1067,21 @@ static int cmd_check(const std::string &property, Tier tier, uint64_t verif_seed
 				path.c_str(), rc);
 			exit_code = 2;
 			continue;
+		}
+		if (fv.monitor == "leak-lsan") {
+			// once more with the slow unwinder, so that the report names the libjwt call site
+			std::string c2 = strf("ASAN_OPTIONS=fast_unwind_on_malloc=0 /proc/%d/exe replay %s --verbose 2>&1", (int)getpid(), path.c_str());
+			FILE *pf = popen(c2.c_str(), "r");
+			if (pf) {
+				char line[1024];
+				int shown = 0;
+				while (fgets(line, sizeof line, pf))
+					if (shown < 14 && (strstr(line, "first libjwt frame") || strstr(line, " in ") || strstr(line, "leak of"))) {
+						printf("LEAK-STACK %s", line);
+						shown++;
+					}
+				pclose(pf);
+			}
 		}
 		printf("VIOLATION-DETAIL property=%s monitor=%s cause=%s run=%llu steps=%zu->%zu\n  %s\n",
 		       fv.property.c_str(), fv.monitor.c_str(), fv.cause.c_str(), (unsigned long long)f.index, orig_steps,
